@@ -85,3 +85,29 @@ def to_behaviours(i, r, ctx="minimal", relational=True, extra_calls=None):
                 calls2.append({"do": "same", "a": [["h", d]], "b": [["x", d]], "data": GEO})
         out.append({"id": "%dr" % i, "ctx": ctx, "resources": res2, "calls": calls2, "kind": "relational"})
     return out
+
+
+# ---- C04: the same macro structures with a built-in whose parameter is the context's own global ------
+# The probe's `c` becomes cart's `ellps` (which every context also supplies as a global, ellps=GRS80):
+# invocation arguments, macro parameters and defaults then compete with a real global.
+ELLPS = {1: "GRS80", 2: "intl", 3: "bessel", 4: "clrk66", 5: "WGS84", 6: "airy", 7: "krass", 9: "helmert"}
+
+
+def subst_ellps(text):
+    t = re.sub(r"\be=(\(\d+\)|\d+)", "", text)
+    t = re.sub(r"\bc=", "ellps=", t)
+    t = t.replace("t_add", "cart").replace("t_dbl", "noop")
+    t = re.sub(r"(?<==)(\d+)\b", lambda m: ELLPS[int(m.group(1))], t)
+    t = re.sub(r"\((\d+)\)", lambda m: "(" + ELLPS[int(m.group(1))] + ")", t)
+    return re.sub(r"[ ]+", " ", t).replace(" |", " |").strip()
+
+
+def ellps_behaviour(i, r, ctx="minimal"):
+    """invocation vs literal expansion, with cart/ellps in place of t_add/c (relational only)"""
+    res2 = {k: subst_ellps(v) for k, v in r["resources"].items()}
+    calls = [{"do": "op", "def": subst_ellps(r["def"]), "as": "h", "ok": bool(r["ok"])}]
+    if r["ok"] and r.get("expansion"):
+        calls.append({"do": "op", "def": subst_ellps(r["expansion"]), "as": "x", "ok": True})
+        for d in ("F", "I"):
+            calls.append({"do": "same", "a": [["h", d]], "b": [["x", d]], "data": GEO})
+    return {"id": "%de" % i, "ctx": ctx, "resources": res2, "calls": calls, "kind": "ellps"}
